@@ -86,6 +86,36 @@ def optimal(item):
             '_cost': (2 ** max(len(xi), len(zi))) * n + len(decodes) * n}
 
 
+def clustered_sector_errors(code, t, tier):
+    """X-only and Z-only errors of weight <= t whose qubits lie within a small
+    window, for windows anchored all over the lattice - in particular around
+    the first and last stabilizer indices.  (A union-find / matching decoder
+    treats the two sectors independently and far-apart errors independently,
+    so clustered single-sector errors are where weight-t failures live.)"""
+    n = code.n
+    qc = np.array(code.qubit_coordinates)
+    lim = 2 * np.array(code.size)
+    sc = np.array(code.stabilizer_coordinates)
+    anchors = list(range(len(sc))) if tier != 'quick' else \
+        sorted({0, 1, len(sc) // 2 - 1, len(sc) // 2, len(sc) - 1, len(sc) // 3, (2 * len(sc)) // 3})
+    seen = set()
+    out = []
+    for a in anchors:
+        d = np.abs(qc - sc[a])
+        d = np.minimum(d, lim - d).sum(axis=1)            # toroidal L1 distance
+        near = [int(q) for q in np.nonzero(d <= 4)[0]]
+        for w in range(1, t + 1):
+            for qs in itertools.combinations(near, w):
+                if qs in seen:
+                    continue
+                seen.add(qs)
+                for half in (0, n):
+                    e = np.zeros(2 * n, dtype=np.uint8)
+                    e[[half + q for q in qs]] = 1
+                    out.append(e)
+    return out
+
+
 def low_weight_errors(n, t):
     out = [np.zeros(2 * n, dtype=np.uint8)]
     letters = [(1, 0), (1, 1), (0, 1)]
@@ -106,8 +136,13 @@ def correctable(item):
     n = code.n
     em = D.make_noise('depol')
     dec = DECODERS[dname](code, em, 0.1)
-    errs = low_weight_errors(n, t)
-    complete = True
+    if isinstance(sweep, tuple) and sweep[0] == 'clustered':
+        errs = clustered_sector_errors(code, t, tier)[sweep[1]::sweep[2]]
+        complete = False
+        cap = None
+    else:
+        errs = low_weight_errors(n, t)
+        complete = True
     if cap and len(errs) > cap:
         rng = np.random.default_rng(common.seed() + n)
         keep = set(int(j) for j in rng.permutation(len(errs))[:cap]) | set(range(1 + 3 * n))
@@ -119,7 +154,8 @@ def correctable(item):
         raised = ''
         c = np.zeros(2 * n, dtype=np.uint8)
         try:
-            c = np.asarray(dec.decode(s)).ravel() % 2
+            with common.time_limit(30):
+                c = np.asarray(dec.decode(s)).ravel() % 2
         except Exception as ex:
             raised = f'{type(ex).__name__}: {ex}'[:80]
         obs.append({'e': codes.bsf_to_op(e, n), 'c': codes.bsf_to_op(c, n), 'raised': raised})
@@ -166,6 +202,12 @@ def domain(tier):
             if cname == 'Toric2DCode':
                 cor.append(('UnionFindDecoder', cname, list(size), t,
                             (800 if tier == 'quick' else 6000), tier, False))
+    # d = 7 tori (t = 3): clustered single-sector errors, anchored everywhere
+    for size in ([(7, 7)] if tier == 'quick' else [(7, 7), (7, 8)]):
+        for part in range(14):
+            cor.append(('UnionFindDecoder', 'Toric2DCode', list(size), 3, None, tier, ('clustered', part, 14)))
+        for part in range(4):
+            cor.append(('MatchingDecoder', 'Toric2DCode', list(size), 3, None, tier, ('clustered', part, 4)))
     # sweep-match: single-qubit errors on home lattices with d >= 3
     for size in codes.sizes('Toric3DCode', 3 if tier == 'quick' else 4):
         if min(size) >= 3:
